@@ -571,3 +571,66 @@ package prover
 //@              deref(result0).ConstraintSystem == gnark.compiledDel(treeDepth, batchSize) &&
 //@              deref(result0).ProvingKey == gnark.setupPK(gnark.compiledDel(treeDepth, batchSize)) &&
 //@              deref(result0).VerifyingKey == gnark.setupVK(gnark.compiledDel(treeDepth, batchSize))
+
+// ---------------------------------------------------------------------------------------
+// C11 / C15 — the proving-system file: fixed section order, error propagation, round trip
+// ---------------------------------------------------------------------------------------
+
+//@ func (*ProvingSystem) WriteTo
+//@   property C11
+//@   modifies w.toks
+//@   let o = len(old(w.toks))
+//@   ensures forall k :: 0 <= k && k < o ==> w.toks[k] == old(w.toks)[k]
+//@   ensures result1 == nil ==> len(w.toks) == o + 11
+//@   ensures result1 == nil ==> (forall k :: 0 <= k && k < 4 ==> w.toks[o + k] == bytes.beByte(ps.TreeDepth, 4, k))
+//@   ensures result1 == nil ==> (forall k :: 0 <= k && k < 4 ==> w.toks[o + 4 + k] == bytes.beByte(ps.BatchSize, 4, k))
+//@   ensures result1 == nil ==> w.toks[o + 8] == tok.pk(ps.ProvingKey.val, 0) && w.toks[o + 9] == tok.vk(ps.VerifyingKey.val, 0) &&
+//@              w.toks[o + 10] == tok.cs(ps.ConstraintSystem.val)
+
+//@ func (*ProvingSystem) WriteRawTo
+//@   property C11
+//@   modifies w.toks
+//@   let o = len(old(w.toks))
+//@   ensures forall k :: 0 <= k && k < o ==> w.toks[k] == old(w.toks)[k]
+//@   ensures result1 == nil ==> len(w.toks) == o + 11
+//@   ensures result1 == nil ==> (forall k :: 0 <= k && k < 4 ==> w.toks[o + k] == bytes.beByte(ps.TreeDepth, 4, k))
+//@   ensures result1 == nil ==> (forall k :: 0 <= k && k < 4 ==> w.toks[o + 4 + k] == bytes.beByte(ps.BatchSize, 4, k))
+//@   ensures result1 == nil ==> w.toks[o + 8] == tok.pk(ps.ProvingKey.val, 1) && w.toks[o + 9] == tok.vk(ps.VerifyingKey.val, 1) &&
+//@              w.toks[o + 10] == tok.cs(ps.ConstraintSystem.val)
+
+//@ func (*ProvingSystem) UnsafeReadFrom
+//@   property C11 C15
+//@   modifies ps, r.pos
+//@   let p = old(r.pos)
+//@   ensures result1 == nil ==> p + 11 <= len(r.toks) && r.pos == p + 11
+//@   ensures result1 == nil ==> (forall k :: 0 <= k && k < 8 ==> tok.isByte(r.toks[p + k]))
+//@   ensures result1 == nil ==> ps.TreeDepth == bytes.beIntFrom(r.toks, p, p + 4) && ps.BatchSize == bytes.beIntFrom(r.toks, p + 4, p + 8)
+//@   ensures result1 == nil ==> (r.toks[p + 8] == tok.pk(ps.ProvingKey.val, 0) || r.toks[p + 8] == tok.pk(ps.ProvingKey.val, 1))
+//@   ensures result1 == nil ==> (r.toks[p + 9] == tok.vk(ps.VerifyingKey.val, 0) || r.toks[p + 9] == tok.vk(ps.VerifyingKey.val, 1))
+//@   ensures result1 == nil ==> r.toks[p + 10] == tok.cs(ps.ConstraintSystem.val)
+//@   lemmas beIntFrom_shift2
+
+//@ func ReadSystemFromFile
+//@   property C11 C15
+//@   ensures err == nil ==> !isnil(ps)
+//@   ensures err == nil ==> 11 <= os.fileLen(path)
+//@   ensures err == nil ==> deref(ps).TreeDepth == bytes.beIntFrom(os.fileToks(path), 0, 4) && deref(ps).BatchSize == bytes.beIntFrom(os.fileToks(path), 4, 8)
+//@   ensures err == nil ==> (os.fileToks(path)[8] == tok.pk(deref(ps).ProvingKey.val, 0) || os.fileToks(path)[8] == tok.pk(deref(ps).ProvingKey.val, 1))
+//@   ensures err == nil ==> (os.fileToks(path)[9] == tok.vk(deref(ps).VerifyingKey.val, 0) || os.fileToks(path)[9] == tok.vk(deref(ps).VerifyingKey.val, 1))
+//@   ensures err == nil ==> os.fileToks(path)[10] == tok.cs(deref(ps).ConstraintSystem.val)
+
+//@ func verifRoundTrip
+//@   property C11
+//@   requires len(buf.toks) == 0 && buf.pos == 0
+//@   modifies ps2, buf
+//@   ensures result == nil ==> ps2.TreeDepth == ps.TreeDepth && ps2.BatchSize == ps.BatchSize && ps2.ProvingKey.val == ps.ProvingKey.val &&
+//@              ps2.VerifyingKey.val == ps.VerifyingKey.val && ps2.ConstraintSystem.val == ps.ConstraintSystem.val
+//@   lemmas beInt_of_beByte pow256_4 tok_inj tok_cs_inj
+
+//@ func verifRoundTripRaw
+//@   property C11
+//@   requires len(buf.toks) == 0 && buf.pos == 0
+//@   modifies ps2, buf
+//@   ensures result == nil ==> ps2.TreeDepth == ps.TreeDepth && ps2.BatchSize == ps.BatchSize && ps2.ProvingKey.val == ps.ProvingKey.val &&
+//@              ps2.VerifyingKey.val == ps.VerifyingKey.val && ps2.ConstraintSystem.val == ps.ConstraintSystem.val
+//@   lemmas beInt_of_beByte pow256_4 tok_inj tok_cs_inj
